@@ -148,6 +148,11 @@ MergeBd(f, h, mergeAttrs) ==
         THEN IF mergeAttrs /\ x \in DOMAIN f
                THEN [role |-> h[x].role, at |-> Merge(f[x].at, h[x].at)] ELSE h[x]
         ELSE f[x]]
+(* stereo changes are merged per (centre, change): a piece that carries only some of the changes of a centre (a
+   subgraph that cuts one of the descriptors) must not wipe the others, otherwise overlapping covers would not
+   reproduce the graph *)
+MergeCh(f, h) == [x \in DOMAIN f \cup DOMAIN h |->
+                    IF x \in DOMAIN f /\ x \in DOMAIN h THEN Merge(f[x], h[x]) ELSE IF x \in DOMAIN h THEN h[x] ELSE f[x]]
 Compose2(g, h, k, mergeAttrs) ==
    [kind |-> k,
     el   |-> Merge(g.el, h.el),
@@ -155,8 +160,8 @@ Compose2(g, h, k, mergeAttrs) ==
     bd   |-> MergeBd(g.bd, h.bd, mergeAttrs),
     ast  |-> IF HasStereo(k) THEN Merge(g.ast, h.ast) ELSE Emp,
     bst  |-> IF HasStereo(k) THEN Merge(g.bst, h.bst) ELSE Emp,
-    ach  |-> IF HasChanges(k) THEN Merge(g.ach, h.ach) ELSE Emp,
-    bch  |-> IF HasChanges(k) THEN Merge(g.bch, h.bch) ELSE Emp]
+    ach  |-> IF HasChanges(k) THEN MergeCh(g.ach, h.ach) ELSE Emp,
+    bch  |-> IF HasChanges(k) THEN MergeCh(g.bch, h.bch) ELSE Emp]
 RECURSIVE ComposeFrom(_, _, _, _, _)
 ComposeFrom(acc, gs, i, k, mergeAttrs) ==
    IF i > Len(gs) THEN acc ELSE ComposeFrom(Compose2(acc, gs[i], k, mergeAttrs), gs, i+1, k, mergeAttrs)
